@@ -111,7 +111,7 @@ func (its *document) GetByPath(path string) (Document, errors.OrdaError) {
 	if len(paths) == 1 && paths[0] == "" {
 		return its, nil
 	}
-	target, err := its.snapshot().getTargetByPaths(paths)
+	target, err := its.snapshot().getTargetByPaths(its.snapshot().getRoot(), paths)
 	if err != nil {
 		return nil, err
 	}
@@ -120,7 +120,8 @@ func (its *document) GetByPath(path string) (Document, errors.OrdaError) {
 
 func (its *document) patchEach(op jsondiff.Operation) errors.OrdaError {
 	// its.L().Infof("%v", op)
-	target, key, err := its.snapshot().getTargetFromPatch(op.Path.String())
+	// the paths of a patch are relative to the Document it is applied to, as the diff of PatchByJSON is.
+	target, key, err := its.snapshot().getTargetFromPatch(its.snapshot(), op.Path.String())
 	if err != nil {
 		return err
 	}
